@@ -63,7 +63,15 @@ PROPS["C15"] = {
 }
 
 # whole properties not claimed (reason); clause-level exclusions live in PROPS[..]["not_decided"]
-NOT_APPLICABLE = {}
+NOT_APPLICABLE = {
+    "C11": ("PCT scheduler: priorities live in a HashMap<TaskId, usize> pre-filled with 16 entries and every decision goes through shuffle / sample / "
+            "gen_range (rejection loops) on a 128-bit PCG. Under Kani the map alone exceeds the memory cap (no result in 25 min at 40 GB); the "
+            "HashMap/iterator idioms are outside Verus' executable subset, and rewriting them would be a hand-written model (a different technique "
+            "family). The bug-depth detection-probability clause is distributional and no contract over one call expresses it. See DESIGN.md 9.3."),
+    "C19": ("tokio-compatible primitives: shuttle-tokio-impl-inner links the real tokio crate; its mpsc / Notify / watch state machines are async fns "
+            "driven by an executor over Arc<Mutex<..>> + Waker tables. No Kani harness reached a result within the time / memory caps (the "
+            "BatchSemaphore-only harnesses of C18 already need 1-15 min each) and async/await bodies are outside Verus' subset. See DESIGN.md 9.3."),
+}
 
 TASK = "shuttle-engine/src/runtime/task/mod.rs"
 TASK_OVERLAY = ["shuttle-engine/src/runtime/task/mod.rs.append.rs", "shuttle-engine/src/runtime/thread/continuation.rs.append.rs",
@@ -460,13 +468,28 @@ MPSCH = [
          [MPSC + "::Channel::send_internal"], B_CH, tier="thorough"),
     KSTD(Kb, "C06.mpsc.try_send_unbounded", "c06_try_send_unbounded", "same, unbounded: never Full", [MPSC + "::Channel::send_internal"], B_CH, tier="thorough"),
 ]
+_ENDS = (("sender_drop", "<Sender as Drop>::drop"), ("sync_sender_drop", "<SyncSender as Drop>::drop"), ("receiver_drop", "<Receiver as Drop>::drop"))
+DROP_C02 = [
+    KSTD(Kb, "C02.mpsc.%s_is_choice_point" % n, "c02_mpsc_%s" % n,
+         "dropping the LAST endpoint of its kind (the peer then observes Disconnected instead of Empty/Full: does not commute): exactly one choice "
+         "point, taken BEFORE the endpoint count changes, so `send; drop` is not one atomic step; dropping another endpoint commutes with "
+         "everything and needs none", [MPSC + "::" + f], B_CH)
+    for (n, f) in _ENDS
+]
+DROP_C06 = [
+    KSTD(Kb, "C06.mpsc.%s" % n, "c06_mpsc_%s" % n,
+         "dropping an endpoint: the count of its kind is one less, the other count and the buffered messages are untouched (drained before "
+         "disconnection is reported); if it was the last endpoint every peer blocked on the channel is Runnable, otherwise nobody is woken",
+         [MPSC + "::" + f], B_CH)
+    for (n, f) in _ENDS
+]
 PROPS["C06"] = {
     "scope": "blocking predicates (K complete); non-blocking send/receive segments on the real channel state (Kb)",
     "kani": MPSCH,
     "overlay_files": STD_OVERLAY,
     "assumptions": [A_BT, A_DUMMY, A_TLS, A_HEAP, A_SWITCH],
     "not_decided": ["receive path (try_recv / recv): the harnesses exhaust memory (SmallVec::remove over symbolic state) and were withdrawn; "
-                    "blocking send second segment and endpoint Drop", "eventual release of blocked endpoints (liveness)"],
+                    "blocking send second segment", "eventual release of blocked endpoints (liveness)"],
 }
 
 CVH = [
@@ -532,14 +555,15 @@ PROPS["C14"]["not_decided"] = ["ExecutionState::cleanup() (order of draining tas
 PROPS["C14"]["scope"] = "a new ExecutionState is fresh and CurrentSchedule::init replaces the recorded schedule (K); global storage is drained in insertion order, each slot once (V, StorageMap)"
 
 # C02: every contracted operation asserts `switches() == 1` before its effect; reuse the complete ones here
-PROPS["C02"]["kani"] += [ATOM[0], LOCKS[0], LOCKS[2]]
+PROPS["C02"]["kani"] += [ATOM[0], LOCKS[0], LOCKS[2]] + DROP_C02
+PROPS["C06"]["kani"] += DROP_C06
 PROPS["C02"]["overlay_files"] = STD_OVERLAY
 PROPS["C02"]["assumptions"] += [A_SWITCH]
 PROPS["C02"]["scope"] = ("the per-operation sufficient condition: exactly one choice point precedes the effect of every contracted visible operation "
                          "(atomics for all values, Mutex try_lock/lock: K; semaphore try_acquire, Acquire::poll: Kb); omitted points are legal "
                          "(unfair first poll skips the choice point only when it blocks); exit-truncation predicate (Kb)")
 PROPS["C02"]["not_decided"] = ["the meta-theorem `every sequentially consistent outcome is produced by some schedule` (exists over schedules, forall programs)",
-                               "operations not under contract: mpsc endpoint Drop, JoinHandle::join, thread::park wrapper, Once, spawn",
+                               "operations not under contract: JoinHandle::join, thread::park wrapper, Once, spawn",
                                "Barrier::wait's legality condition (seeded mutant C02-barrier-will-block-off-by-one is NOT caught: harness withdrawn, see C05)"]
 
 # ---------------- C20 ----------------
